@@ -105,6 +105,8 @@ class STIXdatetime(dt.datetime):
                 dttm.year, dttm.month, dttm.day, dttm.hour, dttm.minute,
                 dttm.second, dttm.microsecond, dttm.tzinfo,
             )
+            # keep the disambiguation of a repeated wall time (PEP 495)
+            kwargs.setdefault("fold", dttm.fold)
         # self will be an instance of STIXdatetime, not dt.datetime
         self = dt.datetime.__new__(cls, *args, **kwargs)
         self.precision = precision
